@@ -121,6 +121,13 @@ func (or *Orchestrator) Service() *Service {
 					wg.Add(1)
 					go func(ss *Service) {
 						defer wg.Done()
+						// Running() is already true while the
+						// owner's Start call is still in
+						// progress, and until that call is done
+						// Wait reports "not started" at once:
+						// Start blocks until it is done (and
+						// never starts a service twice).
+						_ = ss.Start(ctx)
 						// not waitFor(ctx): that returns as soon
 						// as the context is canceled, before the
 						// service has returned and without its
